@@ -659,8 +659,38 @@ impl<'a> Sim<'a> {
             sets = thinned;
             self.bump("probe.thinned-subset-resolutions");
         }
+        self.odd_set_shapes(&mut sets);
         self.bump("probe.subset-resolutions");
         self.resolve_on(n, &sets, "subset-probe");
+    }
+
+    /// Unusual but legal collections of state sets: an empty set among the others, a set that is a
+    /// subset of another one, the same set twice.
+    fn odd_set_shapes(&mut self, sets: &mut Vec<Rc<StateSet>>) {
+        if sets.is_empty() || !self.t.chance(1, 4) {
+            return;
+        }
+        match self.t.below(3) {
+            0 => {
+                let at = self.t.index(sets.len() + 1);
+                sets.insert(at, Rc::new(StateSet::new()));
+                self.bump("probe.resolution-with-empty-state-set");
+            }
+            1 => {
+                let src = sets[self.t.index(sets.len())].clone();
+                let keep_pct = *self.t.pick(&[30u32, 60, 90]);
+                let sub: StateSet = src.iter().filter(|_| self.t.chance(keep_pct, 100)).map(|(k, v)| (k.clone(), v.clone())).collect();
+                let at = self.t.index(sets.len() + 1);
+                sets.insert(at, Rc::new(sub));
+                self.bump("probe.resolution-with-subset-of-another-set");
+            }
+            _ => {
+                let src = sets[self.t.index(sets.len())].clone();
+                let at = self.t.index(sets.len() + 1);
+                sets.insert(at, src);
+                self.bump("probe.resolution-with-repeated-set");
+            }
+        }
     }
 
     /// A small second room resolved on the same thread (and in the same process) as the main room:
@@ -744,6 +774,10 @@ impl<'a> Sim<'a> {
         let tag = self.t.below(1_000_000);
         let users: Vec<String> = vec![format!("@zed:{host}"), format!("@amy:{}", self.servers[n].name), format!("@bob:{host}"), format!("@cat:{}", self.servers[n].name)];
         let levels = [100i64, if self.t.chance(2, 3) { 100 } else { 50 }, 50, 0];
+        let founder_is_other = self.t.chance(1, 5);
+        if founder_is_other && v <= 10 {
+            self.bump("probe.synthetic-room.creator-is-not-the-create-sender");
+        }
         let mut evs: Vec<Rc<Ev>> = Vec::new();
         let mut after: Vec<Rc<StateSet>> = Vec::new();
         let mut dag: rsr2::Dag = BTreeMap::new();
@@ -780,11 +814,22 @@ impl<'a> Sim<'a> {
             let Some(mut auth) = sel_ids(ty, sender, sk, &content, &before) else { return false };
             // a sending server may list fewer auth events than the selection names (resolution reads the
             // sender's level through the listed ones, not through the state)
-            if drop_auth > 0 && auth.len() > 1 {
-                let victim = (drop_auth as usize - 1) % auth.len();
-                if before.get(&key("m.room.create", "")) != Some(&auth[victim]) || drop_auth % 5 == 0 {
+            if drop_auth % 1000 == 999 {
+                // the power-levels event in particular: the sort then falls back on the creator's implicit level
+                if let Some(pl) = before.get(&key("m.room.power_levels", "")) {
+                    auth.retain(|a| a != pl);
+                }
+            } else if drop_auth % 1000 > 0 && auth.len() > 1 {
+                let da = drop_auth % 1000;
+                let victim = (da as usize - 1) % auth.len();
+                if before.get(&key("m.room.create", "")) != Some(&auth[victim]) || da % 5 == 0 {
                     auth.remove(victim);
                 }
+            }
+            // ... and in any order
+            if auth.len() > 1 {
+                let r = (drop_auth / 1000) as usize % auth.len();
+                auth.rotate_left(r);
             }
             let e = Rc::new(Ev { id: next_id(c), room_id: room.clone(), sender: sender.to_string(), ty: ty.to_string(), state_key: sk.map(|x| x.to_string()), content, ts, prev: prev.iter().map(|&i| evs[i].id.clone()).collect(), auth, redacts: None });
             let look = |t: &str, k: &str| before.get(&key(t, k)).and_then(|id| dag.get(id)).cloned();
@@ -797,22 +842,27 @@ impl<'a> Sim<'a> {
             after.push(Rc::new(st));
             true
         };
+        // before v11 the creator is whoever `content.creator` names; nothing makes that the sender of
+        // the create event (in one room in five it is another user, who then founds the room; the
+        // sender of the create event must be on the room ID's server, users[2] is)
+        let (create_sender, founder) = if v <= 10 && founder_is_other { (users[2].clone(), users[0].clone()) } else { (users[0].clone(), users[0].clone()) };
         let mut cc = BTreeMap::new();
         if v <= 10 {
-            cc.insert("creator".to_string(), J::Str(users[0].clone()));
+            cc.insert("creator".to_string(), J::Str(founder.clone()));
         }
         cc.insert("room_version".to_string(), J::Str(v.to_string()));
-        if !push("m.room.create", &users[0], Some(""), J::Obj(cc), vec![], &mut evs, &mut after, &mut dag, ts, &mut counter, 0) {
+        if !push("m.room.create", &create_sender, Some(""), J::Obj(cc), vec![], &mut evs, &mut after, &mut dag, ts, &mut counter, 0) {
             return;
         }
         let mut last = |evs: &Vec<Rc<Ev>>| vec![evs.len() - 1];
         let p = last(&evs);
-        push("m.room.member", &users[0], Some(&users[0]), o(vec![("membership", J::s("join"))]), p, &mut evs, &mut after, &mut dag, ts + 1, &mut counter, 0);
+        push("m.room.member", &founder, Some(&founder), o(vec![("membership", J::s("join"))]), p, &mut evs, &mut after, &mut dag, ts + 1, &mut counter, 0);
+        // (not every founder writes himself into `users`: the creator's implicit level only matters where no power-levels event is consulted)
         let pl_users: Vec<(&str, J)> = users.iter().zip(levels.iter()).map(|(u, l)| (u.as_str(), J::Int(*l))).collect();
         let p = last(&evs);
-        push("m.room.power_levels", &users[0], Some(""), o(vec![("users", o(pl_users))]), p, &mut evs, &mut after, &mut dag, ts + 2, &mut counter, 0);
+        push("m.room.power_levels", &founder, Some(""), o(vec![("users", o(pl_users))]), p, &mut evs, &mut after, &mut dag, ts + 2, &mut counter, 0);
         let p = last(&evs);
-        push("m.room.join_rules", &users[0], Some(""), o(vec![("join_rule", J::s("public"))]), p, &mut evs, &mut after, &mut dag, ts + 3, &mut counter, 0);
+        push("m.room.join_rules", &founder, Some(""), o(vec![("join_rule", J::s("public"))]), p, &mut evs, &mut after, &mut dag, ts + 3, &mut counter, 0);
         for u in users.iter().skip(1) {
             let p = last(&evs);
             push("m.room.member", u, Some(u), o(vec![("membership", J::s("join"))]), p, &mut evs, &mut after, &mut dag, ts + 4, &mut counter, 0);
@@ -858,10 +908,14 @@ impl<'a> Sim<'a> {
                 8 => ("m.room.join_rules", Some(String::new()), o(vec![("join_rule", J::s(*self.t.pick(&["public", "invite"])))])),
                 _ => ("org.x.state", Some((*self.t.pick(&["", "k"])).to_string()), o(vec![("v", J::Int(self.t.below(100) as i64))])),
             };
-            let drop_auth: u64 = if self.t.chance(1, 6) { 1 + self.t.below(20) as u64 } else { 0 };
+            let mut drop_auth: u64 = if self.t.chance(1, 6) { 1 + self.t.below(20) as u64 } else { 0 };
+            if self.t.chance(if founder_is_other { 2 } else { 1 }, 6) {
+                drop_auth = 999;
+            }
             if drop_auth > 0 {
                 self.bump("probe.synthetic-room.event-with-auth-event-omitted");
             }
+            drop_auth += 1000 * self.t.below(4) as u64;
             if push(ty, &actor, sk.as_deref(), content, prev, &mut evs, &mut after, &mut dag, tsx, &mut counter, drop_auth) {
                 ts += 1;
             }
@@ -891,6 +945,7 @@ impl<'a> Sim<'a> {
                 let i = if self.t.chance(2, 3) { after.len() - 1 - self.t.index(after.len().min(8)) } else { self.t.index(after.len()) };
                 sets.push(after[i].clone());
             }
+            self.odd_set_shapes(&mut sets);
             self.bump("probe.synthetic-resolutions");
             self.resolve_on(n, &sets, "synthetic-room");
         }
@@ -1237,6 +1292,16 @@ impl<'a> Sim<'a> {
         base.remove("signatures");
         if self.t.chance(1, 2) {
             base.set("unsigned", gen::gen_json(self.t, 2));
+        }
+        // keys that mean something in *events* mean nothing in a plain signed object: they are
+        // signed content like any other
+        if self.t.chance(1, 3) {
+            for _ in 0..self.t.range(1, 3) {
+                let k = *self.t.pick(&["age_ts", "hashes", "event_id", "origin", "content", "redacts", "prev_state", "membership", "depth", "outlier", "destinations", "replaces_state", "type", "sender"]);
+                let val = gen::gen_json(self.t, 1);
+                base.set(k, val);
+            }
+            self.bump("sign.event-like-top-level-keys");
         }
         // signers: servers and the identity server
         let mut signers: Vec<(String, SignKey)> = self.servers.iter().map(|s| (s.name.clone(), SignKey::from_seed(s.seed, &s.key_version))).collect();
